@@ -262,8 +262,15 @@ def fixed_instances():
               arcs=[("D", "c1", 1, 2), ("c1", "D", 1, 1), ("D", "c2", 1, 3)], time_points=[0],
               routes=[["D", "c1", "D"]])
     p2 = dict(p1, arcs=p1["arcs"] + [("c2", "D", 1, 1), ("c1", "c2", 1, 1)], routes=[["D", "c1", "D"], ["D", "c1", "c2", "D"]])
+    # arc: a time grid given with a repeated point (the code accepts it; queries must still be repeatable)
+    a4 = dict(a3, time_points=[0, 1, 3, 3, 2])
+    # sequence, STRICT: the exit arc the heuristic adds leaves a customer (stored by the strict add_arc itself), one
+    # vehicle serves everybody -- no dummy vehicle, nothing else changes
+    s5 = dict(s2, strict=True)
+    s6 = dict(base, nodes=[("D", 0, 0, INF), ("a", 1, 0, 9), ("b", 1, 0, 9)], arcs=[("D", "a", 1, 2), ("a", "b", 1, 1)],
+              time_points=[0], L=4, strict=True)
     return [("arc", a1), ("arc", a2), ("arc", a3), ("seq", s1), ("seq", s2), ("seq", s3), ("seq", s4),
-            ("path", p1), ("path", p2)]
+            ("path", p1), ("path", p2), ("arc", a4), ("seq", s5), ("seq", s6)]
 
 
 def tuple_pool(kind, desc, rng):
